@@ -439,3 +439,13 @@ Example released_example :
                                 MsgLookup ka; MsgDeliver ka; TimerCancel 0; TimerFire 1; TimerDelete 1] = Some s /\
             timers s = [] /\ hits s = [] /\ in_use s 0 = false /\ trees s 0 = TAbsent.
 Proof. eexists. split; [vm_compute; reflexivity|]. repeat split. Qed.
+
+(* why [released_afterwards] excludes tree responses, and known finding C11-N2: a message for an
+   unknown tree is parked; a local run registers the tree, the parked message is flushed, both
+   instances finish and the tree is released; only then the message's thread registers its request,
+   and the response stores the tree again: nothing uses it, no removal is ever scheduled *)
+Example late_response_stays :
+  exists s, run all_fixed init [MsgLookup ka; MissCheck 0; LocalCreate kb; LocalSet kb; MsgLookup ka; MsgDeliver ka;
+                                Done kb; Done ka; TimerFire 0; TimerDelete 0; MissRegister 0; TreeArrive 0] = Some s /\
+            trees s 0 = TPresent /\ in_use s 0 = false /\ cancel s 0 = None /\ timers s = [] /\ hits s = [].
+Proof. eexists. split; [vm_compute; reflexivity|]. repeat split. Qed.
